@@ -2941,4 +2941,34 @@ theorem pySlice_props {α β : Type} (xs : List α) (a b c : Option Int) :
   split <;> simp_all
 
 
+/-- the Path a sequence operation returns is rooted where the path was (or at T: `from_t`) -/
+theorem seqRef_root {α : Type} [DecidableEq α] (root : String) (hr : root ∈ ["T", "S", "A"])
+    (steps : List (String × α)) (op : SeqOp α) (r : String) (st : List (String × α))
+    (h : seqRef root steps op = .path r st) : r ∈ ["T", "S", "A"] := by
+  cases op <;> simp only [seqRef] at h
+  case idx i =>
+    split at h
+    · split at h <;> simp_all
+    · simp at h
+  case slice a b c =>
+    split at h <;> simp_all
+  case concat other => simp_all
+  case fromT =>
+    simp only [SeqRes.path.injEq] at h
+    rw [← h.1]
+    split <;> simp_all
+  all_goals simp at h
+
+theorem pickleRes_ref {α : Type} [DecidableEq α] (F : Facts) (hwf : WF F = true) (root : String)
+    (hr : root ∈ ["T", "S", "A"]) (steps : List (String × α)) (op : SeqOp α) :
+    pickleRes F.getstateRoots F.setstateRoots (seqRef root steps op) = seqRef root steps op := by
+  cases h : seqRef root steps op with
+  | path r st =>
+    have hr' := seqRef_root root hr steps op r st h
+    have h' := (wf_parts hwf).2.1
+    simp only [wfPickle, List.all_eq_true, Bool.and_eq_true] at h'
+    have := h' r hr'
+    simp only [pickleRes, this.1, this.2, Bool.and_self, if_true]
+  | _ => rfl
+
 end Glom.C18
